@@ -135,29 +135,41 @@ def MeasureB.computeMu (be : Backend α) (m : MeasureB R D α) : MeasureB R D α
   let mu := tab fun r => mulVec (c.Sigma r) (m.nu r)
   ({ m with mu := some mu }, mu)
 
-/-- `_prepare_integration` -/
-def MeasureB.prepare (be : Backend α) (m : MeasureB R D α) : MeasureB R D α :=
-  let m := match m.lnZ with
-    | some _ => m
-    | none => (m.computeLnZ be).1
+/-- `if self.lnZ is None: self.compute_lnZ()` -/
+def MeasureB.ensureLnZ (be : Backend α) (m : MeasureB R D α) : MeasureB R D α :=
+  match m.lnZ with
+  | some _ => m
+  | none => (m.computeLnZ be).1
+
+/-- `if self.mu is None: self.compute_mu()` -/
+def MeasureB.ensureMu (be : Backend α) (m : MeasureB R D α) : MeasureB R D α :=
   match m.mu with
   | some _ => m
   | none => (m.computeMu be).1
 
+/-- `_prepare_integration` -/
+def MeasureB.prepare (be : Backend α) (m : MeasureB R D α) : MeasureB R D α :=
+  (m.ensureLnZ be).ensureMu be
+
+/-- the cached `lnZ` (zero if absent; it is always present where this is read) -/
+def MeasureB.lnZOr0 (m : MeasureB R D α) : Arr R α :=
+  match m.lnZ with
+  | some z => z
+  | none => tab fun _ => 0
+
+/-- `self.lnZ + self.ln_beta` -/
+def MeasureB.lnZPlusLnBeta (m : MeasureB R D α) : Arr R α :=
+  tab fun r => m.lnZOr0 r + m.lnBeta r
+
 /-- `log_integral_light` -/
 def MeasureB.logIntegralLight (be : Backend α) (m : MeasureB R D α) : MeasureB R D α × Arr R α :=
-  let (m, lnZ) := match m.lnZ with
-    | some z => (m, z)
-    | none => m.computeLnZ be
-  (m, tab fun r => lnZ r + m.lnBeta r)
+  let m := m.ensureLnZ be
+  (m, m.lnZPlusLnBeta)
 
-/-- `log_integral`.  After `prepare` the `lnZ` cache is present; the `none` branch is dead code
-kept total (`prepare_lnZ_isSome`). -/
+/-- `log_integral` -/
 def MeasureB.logIntegral (be : Backend α) (m : MeasureB R D α) : MeasureB R D α × Arr R α :=
   let m := m.prepare be
-  match m.lnZ with
-  | some z => (m, tab fun r => z r + m.lnBeta r)
-  | none => (m, m.lnBeta)
+  (m, m.lnZPlusLnBeta)
 
 def MeasureB.integral (be : Backend α) (m : MeasureB R D α) : MeasureB R D α × Arr R α :=
   let (m, li) := m.logIntegral be
@@ -174,28 +186,40 @@ def MeasureB.normalize (be : Backend α) (m : MeasureB R D α) : MeasureB R D α
 
 /-! ## `GaussianPDF.__post_init__` -/
 
+/-- the `Lambda` / `ln_det_Sigma` logic of `GaussianPDF.__post_init__` -/
+def pdfPrecision (be : Backend α) (diag : Bool) (Sigma : Arr R (Mat D D α))
+    (Lambda : Option (Arr R (Mat D D α))) (lnDetSigma : Option (Arr R α)) :
+    Arr R (Mat D D α) × Arr R α :=
+  match Lambda with
+  | none => invertBatch be diag Sigma
+  | some L =>
+    match lnDetSigma with
+    | some ld => (L, ld)
+    | none => (L, tab fun r => be.slogdet (Sigma r))
+
+/-- the object right after `self.nu = …` in `GaussianPDF.__post_init__` -/
+def pdfPre (diag : Bool) (Sigma : Arr R (Mat D D α)) (mu : Arr R (Vec D α))
+    (Lam : Arr R (Mat D D α)) (ld : Arr R α) : MeasureB R D α :=
+  ⟨if diag then .diagPdf else .pdf, Lam, tab fun r => vecMul (mu r) (Lam r), tab fun _ => 0,
+    some ⟨Sigma, ld⟩, none, some mu, none⟩
+
 /-- `GaussianPDF(Sigma=…, mu=…, Lambda=…, ln_det_Sigma=…)` / `GaussianDiagPDF(…)`. -/
 def mkPdf (be : Backend α) (diag : Bool) (Sigma : Arr R (Mat D D α)) (mu : Arr R (Vec D α))
     (Lambda : Option (Arr R (Mat D D α))) (lnDetSigma : Option (Arr R α)) : MeasureB R D α :=
-  let (Lam, ld) : Arr R (Mat D D α) × Arr R α :=
-    match Lambda with
-    | none => invertBatch be diag Sigma
-    | some L =>
-      match lnDetSigma with
-      | some ld => (L, ld)
-      | none => (L, tab fun r => be.slogdet (Sigma r))
-  let nu := tab fun r => vecMul (mu r) (Lam r)
-  let m : MeasureB R D α :=
-    ⟨if diag then .diagPdf else .pdf, Lam, nu, tab fun _ => 0, some ⟨Sigma, ld⟩, none, some mu, none⟩
+  let p := pdfPrecision be diag Sigma Lambda lnDetSigma
   -- `_prepare_integration(); normalize()`; `ln_beta` is only assigned by `normalize`
-  (m.prepare be).normalize be
+  ((pdfPre diag Sigma mu p.1 p.2).prepare be).normalize be
+
+/-- the density of a prepared measure -/
+def MeasureB.densityOf (be : Backend α) (m : MeasureB R D α) : MeasureB R D α :=
+  match m.cov, m.mu with
+  | some c, some mu => mkPdf be false c.Sigma mu (some m.Lambda) (some c.lnDetSigma)
+  | _, _ => m   -- dead: `prepare` fills both
 
 /-- `get_density`: always the full-matrix class. -/
 def MeasureB.getDensity (be : Backend α) (m : MeasureB R D α) : MeasureB R D α × MeasureB R D α :=
   let m := m.prepare be
-  match m.cov, m.mu with
-  | some c, some mu => (m, mkPdf be false c.Sigma mu (some m.Lambda) (some c.lnDetSigma))
-  | _, _ => (m, m)   -- dead: `prepare` fills both
+  (m, m.densityOf be)
 
 /-! ## slice / product of measures and densities -/
 
